@@ -44,6 +44,7 @@ type ntWorld struct {
 	ids   map[string]ref.Identity
 	chars map[string]*ntChar
 	ltpk  []byte
+	seed  int64
 }
 
 type ntConn struct {
@@ -52,7 +53,7 @@ type ntConn struct {
 }
 
 func newNTWorld(seed int64, k int) (*ntWorld, error) {
-	w := &ntWorld{rng: rngFor(seed, 3000+k), ids: map[string]ref.Identity{}, chars: map[string]*ntChar{}}
+	w := &ntWorld{seed: seed, rng: rngFor(seed, 3000+k), ids: map[string]ref.Identity{}, chars: map[string]*ntChar{}}
 	dir := mkTempDir("hcv-notify")
 	sw := accessory.NewSwitch(accessory.Info{Name: "NotifyBridge"})
 	lb := accessory.NewColoredLightbulb(accessory.Info{Name: "NotifyBulb"})
@@ -184,6 +185,7 @@ func init() {
 }
 
 func (w *ntWorld) runWord(b Beh, tr *Tracer) error {
+	w.rng = rngFor(w.seed, 3000000+b.ID)
 	for _, c := range w.chars {
 		c.set(0)
 	}
